@@ -24,12 +24,16 @@ tie:    harness/c08_impl.cc journals, for every widening step of seeded adversar
 A conclusion obligation that fails on the real output is a violation of the property with the history as replay;
 a correspondence / contract difference alone (conclusions hold) is reported as VIOLATION … no-failing-input-found.
 """
-import collections, concurrent.futures as cf, hashlib, importlib, json, os, shutil
+import collections, concurrent.futures as cf, hashlib, importlib, json, os, re, shutil
 
 from .common import BUILD
 
 PROPS = ["PPLV.Props.C08Impl"]
-CONCLUSIONS = {"sup_x", "sup_y", "yconst", "cert_decrease", "accept_contract", "fallback_stabilizing", "exc", "crash"}
+CONCLUSIONS = {"sup_x", "sup_y", "yconst", "cert_decrease", "cert_decrease_inplace", "accept_contract", "fallback_stabilizing",
+               "exc", "crash"}
+# obligations that read a BHRZ03 certificate: with a non-trivial lineality space the certificate is not a function of the
+# point set (KF-C08-5/6/9/10), and what compare(ph) computes for the rays is not what BHRZ03_Certificate(ph) computes
+CERT_OBL = {"precheck", "cert_decrease", "cert_decrease_inplace", "accept_contract", "fallback_stabilizing"}
 NPROC = 12
 
 
@@ -113,6 +117,10 @@ def run_poly(ctx, seed=None, first=0, last=None):
         found = bool(concl)
         for obl, detail in items:
             site = "impl:%s:%s:%s" % (op, "N" if nnc else "C", obl)
+            tags = sorted(set(o for o, _ in items))
+            m = re.search(r"lineality=(\d+)", detail)
+            if op == "bhrz" and obl in CERT_OBL and m and int(m.group(1)) > 0:
+                site, tags = "impl:bhrz:cert_representation", tags + ["lineality"]
             per_key[site] += 1
             if per_key[site] > 3:
                 continue
@@ -121,7 +129,7 @@ def run_poly(ctx, seed=None, first=0, last=None):
                                     "event": lines[:40], "all_failed_obligations": [o for o, _ in items],
                                     "replay_cmd": "bin/check C08 --replay <this file>",
                                     "harness_args": ["--seed", str(seed), "--first", str(hid), "--last", str((hid or 0) + 1)]},
-                             found_input=found, record={"site": site, "tags": sorted(set(o for o, _ in items))}):
+                             found_input=found, record={"site": site, "tags": tags}):
                 nviol += 1
     for b in broken:
         ctx.violation("proof obligation broken: " + b, {"obligation": b}, found_input=False)
